@@ -59,7 +59,7 @@ Proof.
   - (* delete node *)
     pose proof (delete_node_references_inv st n HI) as H.
     destruct (delete_node_references st n) as [d st'] eqn:E. cbn [fst snd] in H |- *.
-    destruct H as (HI' & InF & _ & Hd). split; [|split; [exact HI'|]].
+    destruct H as (HI' & InF & _ & Hd & _). split; [|split; [exact HI'|]].
     + f_equal. apply eq_true_iff_eq. rewrite Hd, existsb_exists. split.
       * intros [H|H].
         -- destruct (F st n) as [|[ty t] b] eqn:EF; [contradiction|].
